@@ -368,13 +368,20 @@ def _parse_color_true(desc: str) -> int | None:
     if not desc.startswith("#"):
         return None
 
-    if len(desc) == 7:
-        h = desc[1:]
-        return int(h, 16)
+    try:
+        if len(desc) == 7:
+            h = desc[1:]
+            if (rgb := int(h, 16)) >= 0:
+                return rgb
 
-    if len(desc) == 4:
-        h = f"0x{desc[1]}0{desc[2]}0{desc[3]}"
-        return int(h, 16)
+            return None
+
+        if len(desc) == 4:
+            h = f"0x{desc[1]}0{desc[2]}0{desc[3]}"
+            return int(h, 16)
+
+    except ValueError:
+        return None
 
     return None
 
@@ -452,7 +459,12 @@ def _true_to_256(desc: str) -> str | None:
     if not (desc.startswith("#") and len(desc) == 7):
         return None
 
-    c256 = _parse_color_256("#" + "".join(format(int(x, 16) // 16, "x") for x in (desc[1:3], desc[3:5], desc[5:7])))
+    try:
+        c256 = _parse_color_256("#" + "".join(format(int(x, 16) // 16, "x") for x in (desc[1:3], desc[3:5], desc[5:7])))
+    except ValueError:
+        return None
+    if c256 is None:
+        return None
     return _color_desc_256(c256)
 
 
